@@ -415,7 +415,11 @@ pub struct Gen<'a> {
     pub stream: Stream,
     /// `0 of` / run-time zero quantifiers allowed in un-anchored `of`
     pub zero_of: bool,
+    /// upper bound on the number of times the current position is evaluated (product of the
+    /// enclosing loops' lengths); keeps nested loops cheap for the implementation and the model
+    pub iters: u64,
 }
+pub const MAX_ITERS: u64 = 4000;
 pub const BOUNDARY: [i64; 22] = [0, 1, -1, 2, 3, 7, 63, 64, 65, 255, 256, 65535, 0x7fff_ffff, 0x8000_0000, 0xffff_ffff, 0x1_0000_0000,
     (1 << 53) - 1, 1 << 53, (1 << 53) + 1, i64::MAX, -i64::MAX, i64::MAX - 1];
 
@@ -679,15 +683,28 @@ impl<'a> Gen<'a> {
                 let (s, syn) = self.pat_set();
                 let q = self.quant(s.len(), 0, d - 1);
                 self.for_of += 1;
+                let saved = self.iters; self.iters = self.iters.saturating_mul(s.len() as u64);
                 let b = self.with_scope(vec![], 5, |g| g.gen_bool(d - 1));
+                self.iters = saved;
                 self.for_of -= 1;
                 E::ForOf(q, s, syn, bx(b))
             }
             17 | 18 if self.slots + 7 <= self.max_slots => {
-                let (lo, hi) = self.range(d - 1);
+                // an outermost loop may run over anything small (filesize, #a, uint8(..): at most
+                // a few hundred values); nested ones get ranges of known, short length
+                let allowed = MAX_ITERS / self.iters.max(1);
+                let (lo, hi, len) = if self.iters <= 1 { let (l, h) = self.range(d - 1); (l, h, 300u64) } else {
+                    let k = self.rng.range(0, (allowed.min(12) as i64 - 1).max(0));
+                    let lo = if self.rng.chance(1, 2) { E::Int(self.rng.range(0, 6)) } else { self.small_int(0) };
+                    let lo = match cfold(&lo, &self.cscope()) { Some(v) if v < 0 => E::Int(0), _ => lo };
+                    let hi = match cfold(&lo, &self.cscope()) { Some(v) => E::Int(v + k), None => E::Arith(Op::Add, bx(lo.clone()), bx(E::Int(k))) };
+                    (lo, hi, (k + 1) as u64)
+                };
                 let q = self.quant(4, 0, d - 1);
                 let x = self.fresh();
+                let saved = self.iters; self.iters = self.iters.saturating_mul(len);
                 let b = self.with_scope(vec![VarInfo { name: x, ty: T::Int, cval: None }], 7, |g| g.gen_bool(d - 1));
+                self.iters = saved;
                 E::ForRange(q, x, bx(lo), bx(hi), bx(b))
             }
             19 if self.slots + 7 <= self.max_slots => {
@@ -696,7 +713,9 @@ impl<'a> Gen<'a> {
                 let items: Vec<E> = (0..n).map(|_| match ty { T::Int => self.gen_int(d.min(2) - 1), T::Str => self.str_expr(), T::Bool => self.bool_ident().unwrap() }).collect();
                 let q = self.quant(n, 0, d - 1);
                 let x = self.fresh();
+                let saved = self.iters; self.iters = self.iters.saturating_mul(n as u64);
                 let b = self.with_scope(vec![VarInfo { name: x, ty, cval: None }], 7, |g| g.gen_bool(d - 1));
+                self.iters = saved;
                 E::ForTuple(q, x, items, bx(b))
             }
             20 | 21 if self.slots + 3 <= self.max_slots => {
